@@ -305,9 +305,11 @@ def c16(run, ctx):
 def c17(run, ctx):
     fam_enc.escape_rule(run, ctx)
     fam_enc.printable_rule(run, ctx)
+    fam_enc.slot_rule(run, ctx)
 
 
 def c19(run, ctx):
+    fam_parse.whitespace_sites(run, ctx)
     fam_expand.id_char_rule(run, ctx)
     fam_parse.group_counting(run, ctx)
     fam_parse.backref_registration(run, ctx)
